@@ -1290,6 +1290,9 @@ class Interp:
                     return static
             if h is not None:
                 return BoundMethod(obj, None, name)
+            w = S.handlers.get(f"{obj.kind}.__getattr__")  # open namespace object: the contract decides per name
+            if w is not None:
+                return w(S, obj, name)
             if not obj.closed:
                 # a contract's view of an object is partial unless it says `closed`: an attribute the view does not
                 # list is "the contract does not know", never a Python AttributeError (a harmless refactor that adds a
